@@ -147,7 +147,7 @@ def run(ctx):
                 model_steps += n
 
     # -- sampled schedules -------------------------------------------------------
-    nscn = 6000 if thorough else 350
+    nscn = 4000 if thorough else 350
     batch = []
     batch_pol = None
     det_checked = 0
@@ -190,16 +190,20 @@ def run(ctx):
     # -- bounded exhaustive exploration of small scenarios on the real class ---------
     ex_stats = []
     bound = 3 if thorough else 1
-    limit = 60000 if thorough else 700
+    limit = 40000 if thorough else 700
+    ex_budget = 300.0 if thorough else 30.0
+    ex_t0 = time.time()
     for k, scn in enumerate(SMALL):
         pending = []
+        # every scenario gets an equal share of what is left of the time budget
+        deadline = time.time() + max(2.0, (ex_budget - (time.time() - ex_t0)) / (len(SMALL) - k))
 
-        def on_run(s, prefix, lvl, scn=scn, pending=pending):
+        def on_run(s, prefix, lvl, scn=scn, pending=pending, deadline=deadline):
             pending.append(s.case)
             if len(pending) >= 300:
                 handle(list(pending), "exhaustive")
                 del pending[:]
-            return len(failures) > 20
+            return len(failures) > 20 or time.time() > deadline
 
         def run_case(prefix, scn=scn):
             c = H.run_scenario(scn, prefix)
@@ -211,9 +215,8 @@ def run(ctx):
             handle(list(pending), "exhaustive")
         st["scenario"] = k
         st["preemption_bound"] = bound
+        st["complete"] = not (st["truncated"] or st["stopped"])
         ex_stats.append(st)
-        if time.time() - t0 > (540 if thorough else 70):
-            break
 
     phases["exhaustive"] = round(time.time() - t0 - phases["sampled"], 1)
     # -- the model's own explorer ---------------------------------------------------------
